@@ -86,8 +86,9 @@ CHECKS["C19"] = dict(
          "real-time order, PUBLISH reply = subscriber count at its point, per (connection, channel) delivery log = the specification's; a Send whose channel object was "
          "dropped between its lookup and its lock is linearized by the dropping UnSubscribe). Negative, kernel-checked runs: PSC.release_deadlocks (the seeded "
          "channel-then-table Release), PSC.cross_channel_order_not_linearizable. Tie: hook H2b records every Pub/Sub lock operation and conns-map access; on every run "
-         "each goroutine's event sequence must be a run of the model's operation automaton (sequential scenario covering every code path and automaton state, the "
-         "socket / handover / prune stress scenarios, negative control).",
+         "each goroutine's event sequence must be a run of the model's operation automaton PSC.TA (PSC.thread_trace_accepted: every thread of the model is accepted by it), "
+         "checked by its Go transcription in every pubsub scenario and by the Lean automaton itself (driver engine PST) on the small scenarios' whole traces; sequential "
+         "scenario covering every code path and automaton state, negative controls.",
     note="Partial: the cross-channel order of one connection's deliveries is not linearizable (refuted in Lean, a finding); the concurrency theorems are about the model "
          "(Go scheduler, memory model, sync.RWMutex modelled; -race runs); TCP back-pressure is runtime behaviour outside the model. Trusted: Lean kernel, harness "
          "(incl. the Go-side automaton), driver, hook H2b.",
